@@ -35,6 +35,11 @@ def run(ctx):
     if not pinned.invariant_violated:
         raise core.Machinery("the pinned exception-flow configuration is not refuted")
     langs_exp = core.run_cases(ctx, "harness.export", "export_locales", [{}], nproc=1)[0]
+    pv = ctx.tlc("P_Validate", "SPECIFICATION Spec\nCONSTANTS\n  MaxEntries = %d\n  Languages = {\"en\", \"fr\"}\nINVARIANT OrderInsensitive\nINVARIANT AcceptedAreTyped\nPROPERTY StaysRejected\nCHECK_DEADLOCK FALSE\n"
+                 % (2 if ctx.quick() else 3), name="P_Validate", timeout=1800)
+    pv.require_clean()
+    for inv in list(pv.invariant_violated) + list(getattr(pv, "property_violated", []) or []):
+        ctx.violation({"tlc_counterexample": pv.counterexample()[-2:]}, "TLC refuted law %s of Validate.tla" % inv)
     order = langs_exp["language_order"]
     locales = [loc for L in order for loc in langs_exp["langs"][L]["locales"]]
     cases = core.replay_cases(ctx)
@@ -124,6 +129,51 @@ def run(ctx):
                                   "s1": rng.choice(["yesterday", "12 March", "10/11/12", "in 2 days"]),
                                   "s2": rng.choice(["yesterday", "12 March", "10/11/12", "in 2 days", "March 2015", "2 weeks ago at 10:30"])})
     twin_results = core.run_cases(ctx, "harness.lib", "call_live_twin", twins, chunk=40) if twins else []
+    # ---- the settings argument against Validate.tla: every documented key (and unknown ones) x values of every
+    # type class; TLC decides from the abstract form whether the argument is valid, the code must agree
+    vals = []
+    if not ctx.replay:
+        def T(t, v=None):
+            return {"t": t, "v": v}
+        S = lambda x: T("str", x)      # noqa: E731
+        L = lambda *xs: T("list", list(xs))      # noqa: E731
+        keys = ["DATE_ORDER", "TIMEZONE", "TO_TIMEZONE", "PREFER_MONTH_OF_YEAR", "PREFER_DAY_OF_MONTH", "PREFER_DATES_FROM", "RETURN_AS_TIMEZONE_AWARE",
+                "STRICT_PARSING", "NORMALIZE", "RETURN_TIME_AS_PERIOD", "FUZZY", "PREFER_LOCALE_DATE_ORDER", "RELATIVE_BASE", "REQUIRE_PARTS", "SKIP_TOKENS",
+                "PARSERS", "DEFAULT_LANGUAGES", "LANGUAGE_DETECTION_CONFIDENCE_THRESHOLD", "CACHE_SIZE_LIMIT", "UNKNOWN_SETTING", "date_order", "Timezone", ""]
+        values = [S("DMY"), S("YMD"), S("dmy"), S("DMY "), S("first"), S("last"), S("current"), S("current_period"), S("past"), S("future"), S("Past"), S("UTC"),
+                  S("Asia/Tokyo"), S("+0530"), S("EST"), S("day"), S("en"), S(""), S("True"), S("1"),
+                  T("bool", True), T("bool", False), T("int", 0), T("int", 1), T("int", -1), T("int", 1000), T("int", 10 ** 12),
+                  T("float", 0.0), T("float", 0.5), T("float", 1.0), T("float", 1.5), T("float", -0.1), T("float", "nan"), T("float", "inf"),
+                  T("none"), T("dict", []), T("tuple", [S("day")]), T("tuple", []), T("bytes", "6162"), T("date", [2020, 1, 1]),
+                  T("datetime", [2020, 1, 1, 0, 0, 0, 0]), T("datetime", [1, 1, 1, 0, 0, 0, 0]), T("datetime", [9999, 12, 31, 23, 59, 59, 999999]),
+                  L(), L(S("day")), L(S("day"), S("month"), S("year")), L(S("day"), S("day")), L(S("week")), L(S("Day")), L(T("int", 1)), L(L(S("day"))), L(T("dict", [])),
+                  L(S("en")), L(S("en"), S("fr")), L(S("en"), S("en")), L(S("xx")), L(S("EN")), L(T("none")),
+                  L(S("absolute-time")), L(S("timestamp"), S("relative-time"), S("custom-formats"), S("absolute-time"), S("no-spaces-time"), S("negative-timestamp")),
+                  L(S("absolute-time"), S("absolute-time")), L(S("sometimes")), L(S("t")), L(S("t"), S("foo"), S("t"))]
+        strings = ["", "2015-03-05", "yesterday", "10/11/12", "March", "1500000000", "foo"]
+        for k in keys:
+            if k == "":
+                continue
+            for v in values:
+                if k in ("TIMEZONE", "TO_TIMEZONE") and v["t"] == "str" and v["v"] not in ("UTC", "Asia/Tokyo", "+0530", "EST"):
+                    continue          # unresolvable zone names: outside the statement (DESIGN 0.3)
+                vals.append({"arg": T("dict", [[k, v]]), "s": rng.choice(strings), "api": rng.choice(["ddp", "ddp", "parse", "search"])})
+        for _ in range(300 if ctx.quick() else 5000):      # dicts of 2-3 entries: the FIRST offending entry decides the class
+            ks = rng.sample([k for k in keys if k], rng.randint(2, 3))
+            ent = []
+            for k in ks:
+                v = rng.choice(values)
+                if k in ("TIMEZONE", "TO_TIMEZONE") and v["t"] == "str":
+                    v = S(rng.choice(["UTC", "Asia/Tokyo", "+0530", "EST"]))
+                ent.append([k, v])
+            vals.append({"arg": T("dict", ent), "s": rng.choice(strings), "api": rng.choice(["ddp", "parse"])})
+        # the argument itself: None, falsy objects, a Settings object, other types
+        for a in [T("none"), T("dict", []), T("int", 0), S(""), L(), T("tuple", []), T("bool", False), T("float", 0.0), T("settings", []),
+                  T("settings", [["DATE_ORDER", S("DMY")]]), T("int", 5), S("DATE_ORDER=DMY"), L(S("DATE_ORDER")), T("tuple", [S("DATE_ORDER"), S("DMY")]), T("bool", True),
+                  T("float", 1.5), T("bytes", "61"), L(L(S("DATE_ORDER"), S("DMY")))]:
+            for st_ in strings[:4]:
+                vals.append({"arg": a, "s": st_, "api": rng.choice(["ddp", "parse"])})
+    val_results = core.run_cases(ctx, "harness.lib", "call_validate", vals, chunk=100) if vals else []
     if not ctx.replay:
         # cases that share a settings dict are executed by the same worker: the library rebuilds its regex
         # caches for every new (settings, locale) pair, which dominates the cost otherwise
@@ -145,11 +195,47 @@ def run(ctx):
             valid = True if j != 1 else (r["exc"] == "")
             records.append({"kind": "c02", "tid": tid, "valid": valid, "api": r.get("api", "ddp"), "exc": r["exc"], "mro": r["mro"], "hasDate": bool(r["out"]),
                             "period": r["period"], "locale": r["locale"]})
-    tuples, gen = core.validate_traces(ctx, "T_C02", "SPECIFICATION TSpec\nPOSTCONDITION Consumed\nCHECK_DEADLOCK FALSE\n", records)
+    def absval(v):
+        t = v["t"]
+        rec = {"t": {"date": "date", "bytes": "bytes", "settings": "settings"}.get(t, t), "s": v["v"] if t == "str" else "", "items": [], "in01": False}
+        if t in ("list", "tuple"):
+            rec["items"] = [{"t": x["t"], "s": x["v"] if x["t"] == "str" else ("%s:%r" % (x["t"], x.get("v")))} for x in v["v"]]
+        if t in ("int", "float", "bool"):
+            try:
+                rec["in01"] = bool(0 <= float(v["v"]) <= 1)
+            except (TypeError, ValueError):
+                rec["in01"] = False
+        return rec
+    val_index = {}
+    for vc, vr in zip(vals, val_results):
+        tid = len(cases) + len(twin_index) + len(val_index)
+        val_index[tid] = (vc, vr)
+        a = vc["arg"]
+        if a["t"] == "dict" and a["v"]:
+            argkind, d = "dict", [[k, absval(v)] for k, v in a["v"]]
+        elif a["t"] == "none":
+            argkind, d = "none", []
+        elif a["t"] == "settings":
+            argkind, d = "settings", []
+        elif a["t"] in ("dict", "list", "tuple") and not a["v"] or a["t"] in ("int", "float", "bool", "str") and not a["v"]:
+            argkind, d = "falsy", []
+        else:
+            argkind, d = "other", []
+        records.append({"kind": "val", "tid": tid, "argkind": argkind, "d": d, "exc": vr["exc"], "mro": vr["mro"]})
+    tuples, gen = core.validate_traces(ctx, "T_C02", "SPECIFICATION TSpec\nCONSTANTS\n  Languages = {%s}\nPOSTCONDITION Consumed\nCHECK_DEADLOCK FALSE\n"
+                                       % ", ".join('"%s"' % x for x in order), records)
     seen = {}
     ndrift = 0
     for t in tuples["REJECT"]:
         _, tid, kind, verdict, exc = t[:5]
+        if tid in val_index:
+            vc, vr = val_index[tid]
+            if kind == "abs":
+                ctx.note_drift("Validate", {"settings": vc["arg"], "model": exc, "observed": vr["exc"] or "accepted"})
+            else:
+                ctx.violation({"call": "%s(%r, languages=['en'], settings=<%r>)" % (vc["api"], vc["s"], vc["arg"])}, verdict,
+                              expected="Validate.tla: %s" % exc, observed={"exc": vr["exc"], "msg": vr.get("msg"), "phase": vr.get("phase")})
+            continue
         if tid in twin_index:
             tc, j, r = twin_index[tid]
             ctx.violation({"history": "p = DateDataParser(languages=['en'], settings=%r); p.get_date_data(%r); %s(%r, settings=%r)  [look-alike]; p.get_date_data(%r)" % (
@@ -173,7 +259,7 @@ def run(ctx):
                       observed={"exc": r["exc"], "msg": r.get("msg"), "out": r["out"], "period": r["period"], "locale": r["locale"]}, extra={"full_case": c})
     ctx.notes.append({"reject_classes": {"%s|%s|%s" % k: v for k, v in seen.items()}})
     cov = {
-        "live_parser_look_alike_histories": len(twins),
+        "live_parser_look_alike_histories": len(twins), "settings_arguments_judged_by_Validate": len(vals),
         "evaluations": len(cases), "distinct_nontrivial": len({(c["s"], repr(c["kw"]), repr(c["settings"])) for c, r in zip(cases, results) if r["out"]}),
         "rule": "case = (string <= 100 chars, settings from the pool, languages / locales / region, date_formats); non-trivial = distinct call returning a datetime",
         "exhaustive": False, "states": mc.distinct, "transitions": mc.generated, "traces_validated_against_impl": len(cases),
